@@ -581,7 +581,9 @@ def jobs(tier):
 
 
 BOUNDS = dict(
-    quick='4 error models x n_times 1..2 x n_samples 1..2; 7 population '
+    quick='4 error models x n_times 1..2 x n_samples 1..2; the same with '
+          'every subset of error parameters fixed (ReducedErrorModel, two '
+          'calls in a row); 7 population '
           'kinds x n_dim 1..2 x n_samples 1..2 (bare and composed); 5 '
           'two-unit compositions; covariate variants (1 covariate; two covariate sub-models in one composition); reduced '
           'variants; moments for n_dim 1..2',
